@@ -14,13 +14,15 @@
 (* There is NO action for: a write to the cache path, an open of it with   *)
 (* O_WRONLY/O_RDWR/O_TRUNC/O_CREAT/O_APPEND, its unlink, a rename away     *)
 (* from it or onto it from anything but the temp file - and Persist is     *)
-(* enabled only after TransferEnds("ok") (every announced byte written to  *)
-(* the temp file, server behaviour = complete answer) and CheckStatus with *)
-(* status 200.  Such a line is therefore rejected.                         *)
+(* enabled only after TransferEnds("ok") (every byte the server sent was   *)
+(* written to the temp file), CheckStatus with status 200 and Validate:    *)
+(* the temp file holds the COMPLETE new body (a close-delimited answer cut *)
+(* short ends "ok" for the client, but its bytes are not the document).    *)
+(* Such a line is therefore rejected.                                      *)
 (*                                                                         *)
 (* What the property leaves free is free here: decisions that are not      *)
 (* file-system calls are internal steps (ReadIfCurrent, TransferEnds,      *)
-(* CheckStatus, FallbackStale, Load, Sync); reads, fsyncs, calls on other  *)
+(* CheckStatus, Validate, FallbackStale, Load, Sync); reads, fsyncs, calls on other *)
 (* paths and removal of temp files are always accepted; the code may       *)
 (* refresh although the cache is fresh (RefreshAnyway), may give up a      *)
 (* complete download (GiveUp) and may leave the temp file behind.          *)
@@ -34,9 +36,10 @@ cvars == <<prior, server, entry, cache, age, tmp, litter, pc, run, sent, status,
 
 C == INSTANCE Cache WITH NewLen <- Rec[1].newlen, ErrLen <- Rec[1].errlen,
                          Cuts <- {}, Codes <- {}, ChunkSizes <- {},
-                         NetMayFail <- TRUE, MayLeaveLitter <- TRUE,
+                         NetMayFail <- TRUE, MayLeaveLitter <- TRUE, CloseDelimited <- TRUE,
                          WriteInPlace <- FALSE, PersistBeforeStatusCheck <- FALSE,
-                         TruncatedIsSuccess <- FALSE, NoStaleFallback <- FALSE, AbortOnRefreshError <- FALSE
+                         TruncatedIsSuccess <- FALSE, SkipValidation <- FALSE, FixedTempName <- FALSE,
+                         NoStaleFallback <- FALSE, AbortOnRefreshError <- FALSE
 
 MetaServer(m) == [mode |-> m.mode, k |-> m.k, code |-> m.code]
 
@@ -54,14 +57,14 @@ RefreshAnyway ==
   /\ pc = "cached" /\ pc' = "download"
   /\ UNCHANGED <<prior, server, entry, cache, age, tmp, litter, run, sent, status, refresh, used, fellback, started, r1>>
 GiveUp ==
-  /\ pc \in {"status", "sync", "persist"} /\ pc' = "drop" /\ refresh' = "failed"
+  /\ pc \in {"status", "validate", "sync", "persist"} /\ pc' = "drop" /\ refresh' = "failed"
   /\ UNCHANGED <<prior, server, entry, cache, age, tmp, litter, run, sent, status, used, fellback, started, r1>>
 
 Internal ==
   /\ l' = l
   /\ \/ C!ReadIfCurrent \/ RefreshAnyway
      \/ C!TransferEnds("ok") \/ C!TransferEnds("err")
-     \/ C!CheckStatus \/ C!Sync \/ GiveUp
+     \/ C!CheckStatus \/ C!Validate \/ C!Sync \/ GiveUp
      \/ C!AbandonTemp \/ C!FallbackStale \/ C!Load
 
 Event ==
